@@ -31,9 +31,15 @@ def jobs1(tier, sl):
         J('L2_sweep', 'MODE_L2', 'call_out() over 1..LAGMAX seconds: exactly the entries whose due time has come fire, once, in order; destructed owners dropped; an error in one firing neither loses nor repeats others',
           inp + ', error mask', tier, defs=dm, targets=['call_out']),
     ] + [
-        J('L2R_reentrant.act%d' % a, 'MODE_L2R', 'call_out() whose first callback really calls new_call_out(delay in [-1,66]) / remove_call_out / remove_call_out_by_handle / find_call_out*: scheduled entry is due on time and does not fire in the same sweep; removed never fires; reported time left is exact',
-          inp + ', action, target entry, delay', tier, defs=dm + ['ACT=%d' % a, 'L2R_NX=%d' % (1 if a == 0 else 2)], mem_gb=20, targets=['call_out'], opt_witness=['reentrant_delay_one_revolution', 'reentrant_insert', 'reentrant_remove', 'reentrant_find', 'two_fired', 'error_branch'])
-        for a in range(5)
+        J('L2R_reentrant.act0.d%s' % str(dl).replace('-', 'm'), 'MODE_L2R', 'call_out() whose first callback really calls new_call_out(delay=%d): the new entry does not fire in the same sweep and is due exactly at current_time+max(delay,1)' % dl,
+          inp, tier, defs=dm + ['ACT=0', 'L2R_NX=2', 'DELAY=(%d)' % dl], mem_gb=14, targets=['call_out', 'new_call_out'],
+          opt_witness=['reentrant_delay_one_revolution', 'reentrant_insert', 'reentrant_remove', 'reentrant_find', 'two_fired', 'error_branch'])
+        for dl in ((-1, 1, 31, 32, 33, 64) if tier == 'quick' else (-1, 0, 1, 2, 30, 31, 32, 33, 34, 63, 64, 65, 96))
+    ] + [
+        J('L2R_reentrant.act%d' % a, 'MODE_L2R', 'call_out() whose first callback really calls remove_call_out / remove_call_out_by_handle / find_call_out*: removed never fires; reported time left is exact; others unaffected',
+          inp + ', action, target entry', tier, defs=dm + ['ACT=%d' % a, 'L2R_NX=2'], mem_gb=14, targets=['call_out'],
+          opt_witness=['reentrant_delay_one_revolution', 'reentrant_insert', 'reentrant_remove', 'reentrant_find', 'two_fired', 'error_branch'])
+        for a in range(1, 5)
     ] + [
         J('L3_query_cancel.act%d' % a, 'MODE_L3', 'remove/find by name and handle, remove_all_call_out at top level: report due-current_time, removed entry gone and released once, others keep their due time',
           inp + ', action, target entry', tier, defs=dm + ['ACT=%d' % a], targets=[], opt_witness=['remove_middle_of_three', 'remove_all'])
